@@ -308,7 +308,33 @@ fn binop_trait(op: &syn::BinOp) -> Option<(&'static str, &'static str)> {
     })
 }
 
+pub const RESERVED: [&str; 3] = ["int", "nat", "real"];
+
 impl<'a, 'ast> Visit<'ast> for Cx<'a> {
+    fn visit_expr_path(&mut self, p: &'ast syn::ExprPath) {
+        // N14: a local named like a Verus built-in type is renamed (`int` => `int__v`)
+        if p.qself.is_none() && p.path.segments.len() == 1 {
+            let id = &p.path.segments[0].ident;
+            let name = id.to_string();
+            if RESERVED.contains(&name.as_str()) {
+                let r = id.span().byte_range();
+                self.replace(r.clone(), format!("{}__v", name));
+                self.note("N14", r.start, &name, &format!("{}__v", name));
+            }
+        }
+        syn::visit::visit_expr_path(self, p);
+    }
+
+    fn visit_pat_ident(&mut self, i: &'ast syn::PatIdent) {
+        let name = i.ident.to_string();
+        if RESERVED.contains(&name.as_str()) {
+            let r = i.ident.span().byte_range();
+            self.replace(r.clone(), format!("{}__v", name));
+            self.note("N14", r.start, &name, &format!("{}__v", name));
+        }
+        syn::visit::visit_pat_ident(self, i);
+    }
+
     fn visit_attribute(&mut self, a: &'ast syn::Attribute) {
         // N1: attributes inside bodies
         let r = a.span().byte_range();
@@ -380,7 +406,16 @@ impl<'a, 'ast> Visit<'ast> for Cx<'a> {
                     }
                     self.let_hints_used.push(w);
                 }
-                _ => self.fail(format!("hint `{}`: the arm body is not a block", w)),
+                other => {
+                    if w.starts_with("arm_start") {
+                        let r = other.span().byte_range();
+                        self.insert(r.start, format!("{{ {} ", t));
+                        self.insert(r.end, " }");
+                        self.let_hints_used.push(w);
+                    } else {
+                        self.fail(format!("hint `{}`: the arm body is not a block", w));
+                    }
+                }
             }
         }
         let mut derefs = vec![];
@@ -449,15 +484,59 @@ impl<'a, 'ast> Visit<'ast> for Cx<'a> {
         self.closures_seen.push(ord);
         let spec = self.slot.closures.iter().find(|x| x.0 == ord).map(|x| x.1.clone());
         let mut derefs = vec![];
+        let mut derefs_prefix = String::new();
         if let Some(header) = spec {
             // replace `|params| [-> T]` by the template's header; the body must be a block
             let s = c.or1_token.span().byte_range().start;
             let e = c.body.span().byte_range().start;
             // by-value bindings under & in params still need their lets
             let mut scratch = Cx { src: self.src, slot: self.slot, retarget: self.retarget, edits: vec![], log: vec![], seq: 0, err: None, loop_ord: 0, closure_ord: 0, base_line: self.base_line, loops_seen: vec![], closures_seen: vec![], let_counts: Default::default(), let_hints_used: vec![], arm_ord: 0 };
-            for p in &c.inputs {
-                scratch.pat(p, false, &mut derefs);
+            // names of the header's parameters, positionally
+            let hdr_names: Vec<String> = {
+                let h = header.trim();
+                let inner = h.strip_prefix('|').and_then(|x| x.find('|').map(|p| x[..p].to_string())).unwrap_or_default();
+                let mut out = vec![];
+                let mut depth = 0i32;
+                let mut cur = String::new();
+                for ch in inner.chars() {
+                    match ch {
+                        '(' | '[' | '<' => { depth += 1; cur.push(ch) }
+                        ')' | ']' | '>' => { depth -= 1; cur.push(ch) }
+                        ',' if depth == 0 => { out.push(cur.clone()); cur.clear(); }
+                        _ => cur.push(ch),
+                    }
+                }
+                if !cur.trim().is_empty() { out.push(cur); }
+                out.iter().map(|x| x.split(':').next().unwrap_or("").trim().to_string()).collect()
+            };
+            let mut param_lets = String::new();
+            for (pi, p) in c.inputs.iter().enumerate() {
+                // a typed param `x: T` or plain `x` with the header's name needs no let
+                let inner_pat = match p { syn::Pat::Type(t) => &*t.pat, other => other };
+                let simple = matches!(inner_pat, syn::Pat::Ident(i) if i.by_ref.is_none() && i.subpat.is_none() && hdr_names.get(pi).map(|n| i.ident == n.as_str()).unwrap_or(false));
+                if simple {
+                    continue;
+                }
+                let before = scratch.edits.len();
+                scratch.pat(inner_pat, false, &mut derefs);
+                let r = inner_pat.span().byte_range();
+                let mut es: Vec<&Edit> = scratch.edits[before..].iter().collect();
+                es.sort_by_key(|e| (e.start, e.seq));
+                let mut txt = String::new();
+                let mut pos = r.start;
+                for e in es {
+                    if e.start < pos || e.end > r.end { continue; }
+                    txt.push_str(&self.src[pos..e.start]);
+                    txt.push_str(&e.text);
+                    pos = e.end;
+                }
+                txt.push_str(&self.src[pos..r.end]);
+                match hdr_names.get(pi) {
+                    Some(n) if !n.is_empty() => param_lets.push_str(&format!("let {} = {}; ", crate::one_line_pub(&txt), n)),
+                    _ => self.fail(format!("closure {}: the template header has no parameter for pattern #{}", ord, pi)),
+                }
             }
+            derefs_prefix = param_lets;
             self.replace(s..e, format!("{} ", header));
             let before = self.src[s..e].to_string();
             self.note("spec", s, &before, "closure header with requires/ensures from the template");
@@ -466,7 +545,7 @@ impl<'a, 'ast> Visit<'ast> for Cx<'a> {
                 self.pat(p, false, &mut derefs);
             }
         }
-        let lets = Cx::deref_lets(&derefs);
+        let lets = format!("{}{}", derefs_prefix, Cx::deref_lets(&derefs));
         let needs_block = !lets.is_empty() || self.slot.closures.iter().any(|x| x.0 == ord);
         if needs_block {
             match &*c.body {
@@ -698,6 +777,16 @@ pub fn rewrite_body(slot: &SlotSpec, found: &Found, retarget: &[(String, String)
                 _ => close,
             };
             cx.insert(at, format!(" {} ", t));
+        } else if w == "result" {
+            // bind the tail expression, run the hint, return the binding
+            match block.stmts.last() {
+                Some(syn::Stmt::Expr(e, None)) => {
+                    let r = e.span().byte_range();
+                    cx.insert(r.start, "let __vx_r = ");
+                    cx.insert(r.end, format!("; {} __vx_r", t));
+                }
+                _ => bail!("hint `result`: the body has no tail expression"),
+            }
         } else if let Some(anchor) = w.strip_prefix("before ") {
             let n = text.matches(anchor).count();
             if n != 1 {
